@@ -405,16 +405,14 @@ class Stmts(FnCtx):
         inits = ks[1:-1]
         lw = self.lw
         lw.lambda_count += 1
-        self.lambda_n = getattr(self, 'lambda_n', 0) + 1
-        cname = 'closure_%s_%d' % (self.f.cname, self.lambda_n)
         qual = qt(n)
-        r = Record(rec, qual)
-        r.cname = cname
-        r.is_lambda = True
-        lw.records[rec['id']] = r
-        lw.rec_by_qual[qual] = r
-        lw.te.record_names[qual] = cname
-        lw.late_records.append(r)
+        r = lw.records.get(rec['id'])
+        if r is None:
+            self.err(n, 'lambda was not pre-registered')
+        cname = r.cname
+        r.fields = []
+        if r not in lw.late_records:
+            lw.late_records.append(r)
         fields = [c for c in kids(rec) if c.get('kind') == 'FieldDecl']
         call = [c for c in kids(rec) if c.get('kind') == 'CXXMethodDecl' and c.get('name') == 'operator()']
         if not call:
@@ -442,11 +440,17 @@ class Stmts(FnCtx):
                 vid = x['referencedDecl']['id']
                 vname = x['referencedDecl'].get('name')
             # init-capture:  [name = expr]  -- clang gives the VarDecl in captures of the closure; find by field order
-            ic = self.init_capture_var(rec, i)
-            if ic is not None:
-                vid, vname = ic['id'], ic['name']
+            if vid is None or (core.get('kind') != 'DeclRefExpr' and x.get('kind') == 'DeclRefExpr' and x is not core
+                               and strip_casts(ie, ('ImplicitCastExpr', 'ParenExpr')).get('kind') == 'CallExpr'):
+                ic = self.init_capture_var(body, caps, ft)
+                if ic is not None:
+                    vid, vname = ic
             if vid is None:
-                self.err(n, 'capture initialiser not understood')
+                # init-capture  [name = expr]: the body refers to a VarDecl that is declared nowhere inside it
+                ic = self.init_capture_var(body, caps, ft)
+                if ic is None:
+                    self.err(n, 'capture initialiser not understood')
+                vid, vname = ic
             fname = 'cap_' + vname
             r.fields.append((fname, None, fd))
             lw.fields[fd['id']] = (r, fname)
@@ -461,17 +465,32 @@ class Stmts(FnCtx):
                     self.pre.append('%s = %s;' % (lv, self.ex(ie)))
                 caps[vid] = 'self->%s' % fname
         # lower operator()
-        fn = Func(call[0], qual + '::operator()', r, lw)
-        fn.cname = cname + '__call'
-        lw.funcs[call[0]['id']] = fn
+        fn = lw.funcs[call[0]['id']]
         # nested lambdas see the enclosing captures too (captured through our own closure only if listed)
         sub = Stmts(lw, fn, captures=caps, this_expr=this_expr or 'self->__nothis')
         sub.bindings = self.bindings
         lw.lambda_fns.append((fn, sub))
 
-    def init_capture_var(self, rec, i):
-        caps = rec.get('captures')
-        return None
+    def init_capture_var(self, body, known, ft):
+        declared, refs = set(), []
+
+        def walk(x):
+            if not isinstance(x, dict):
+                return
+            if x.get('kind') in ('VarDecl', 'ParmVarDecl') and 'id' in x:
+                declared.add(x['id'])
+            if x.get('kind') == 'DeclRefExpr':
+                r = x.get('referencedDecl', {})
+                if r.get('kind') == 'VarDecl':
+                    refs.append((r.get('id'), r.get('name'), r.get('type', {}).get('qualType')))
+            for c in x.get('inner', []) or []:
+                walk(c)
+        walk(body)
+        cands = []
+        for (i, nm, ty) in refs:
+            if i not in declared and i not in known and i not in self.lw.globals and (i, nm) not in cands:
+                cands.append((i, nm))
+        return cands[0] if len(cands) == 1 else None
 
 
 # ---------------------------------------------------------------------- Lowerer extensions
@@ -512,6 +531,47 @@ def has_virtual_dtor(self, r):
     return False
 
 
+def preregister_lambdas(self):
+    """closure classes and their operator() are registered before any body is lowered, so that a call through a
+    closure object resolves whatever the lowering order"""
+    def walk(x, encl, counter):
+        if not isinstance(x, dict):
+            return
+        if x.get('kind') == 'LambdaExpr':
+            ks = kids(x)
+            rec = ks[0]
+            counter[0] += 1
+            cname = 'closure_%s_%d' % (encl, counter[0])
+            qual = qt(x)
+            if rec['id'] not in self.records:
+                r = Record(rec, qual)
+                r.cname = cname
+                r.is_lambda = True
+                r.fields = []
+                self.records[rec['id']] = r
+                self.rec_by_qual[qual] = r
+                self.te.record_names[qual] = cname
+                call = [c for c in kids(rec) if c.get('kind') == 'CXXMethodDecl' and c.get('name') == 'operator()']
+                if call:
+                    fn = Func(call[0], qual + '::operator()', r, self)
+                    fn.cname = cname + '__call'
+                    self.funcs[call[0]['id']] = fn
+                    self.func_by_cname[fn.cname] = fn
+            # captures initialisers and nested lambdas in the body
+            sub = [0]
+            for c in ks[1:]:
+                walk(c, cname + '__call', sub)
+            return
+        for c in x.get('inner', []) or []:
+            walk(c, encl, counter)
+    for f in list(self.all_funcs()):
+        if f.has_body() and f.cls is not None and f.cls.is_lambda:
+            continue
+        if f.has_body():
+            walk(f.body_node, f.cname, [0])
+
+
+Lowerer.preregister_lambdas = preregister_lambdas
 Lowerer.all_funcs = all_funcs
 Lowerer.decl_nodes_of = decl_nodes_of
 Lowerer.dtor_of = dtor_of
